@@ -42,6 +42,11 @@ EXPLANATION = (
     "comparing the '/'-separated path components before the last one with the scope's components (list equality, equality of "
     "the '/'-joined head, or a prefix test with the scope extended by the separator); a prefix / sub-string / leading-characters "
     "test on the joined strings is a violation (scope `p/rate` would capture `p/rate_slow/tau`).  "
+    "R7 on the way from the parsing function to ComputeGraph.add_op (all functions of backend/parser.py reachable from "
+    "ExpressionParser.parse_expr; expression-valued names found by a small type inference) a parsed sympy expression is "
+    "transformed only by the enumerated renamings subs / replace / xreplace; a sympy simplifier, normaliser or numeric "
+    "evaluation (expand, simplify, factor, cancel, together, nsimplify, powsimp, expand_*, rewrite, evalf, …) applied to it is "
+    "a violation, any other expression-returning method an AnalysisError.  "
     "NOT decided: values; names that collide only through equality of two user-chosen names (source variable named like the "
     "target variable of one edge); collisions inside generated operators between two user-derived templates."
 )
